@@ -230,7 +230,10 @@ fn host_conn(name: String, mut s: TcpStream) {
         *c += 1;
         *c
     };
-    let _ = s.set_read_timeout(Some(Duration::from_secs(30)));
+    // how long the mock host keeps an idle upstream connection open (a script that leaves a connection idle for half a
+    // minute on purpose asks for more: a host that closes it is a different scenario)
+    let idle_s = std::env::var("VERIF_HOST_IDLE_S").ok().and_then(|v| v.parse().ok()).unwrap_or(30u64);
+    let _ = s.set_read_timeout(Some(Duration::from_secs(idle_s)));
     let _ = s.set_nodelay(true);
     verif::trace::emit(json!({"e": "HostConn", "host": name, "hconn": hconn}));
     let mut buf: Vec<u8> = Vec::new();
